@@ -205,8 +205,8 @@ def _cat_spec(rng, numeric_only=False, str_only=False):
     return spec
 
 
-def _ord_spec(rng):
-    if rng.random() < 0.3:
+def _ord_spec(rng, allow_numeric=True):
+    if allow_numeric and rng.random() < 0.3:
         # numeric-valued ordinal feature ranked through the string forms of its values; the ranking
         # may lack observed values (they are appended to it by the string conversion step)
         k = rng.randint(3, 7)
@@ -416,7 +416,9 @@ def generate_world(rng, tier="quick", force_class=None, min_features=1, max_feat
         elif kind == "cat":
             spec = _cat_spec(rng)
         elif kind == "ord":
-            spec = _ord_spec(rng)
+            # OrdinalDiscretizer on its own takes string values only (numbers go through the string
+            # conversion step of QualitativeDiscretizer)
+            spec = _ord_spec(rng, allow_numeric=sut_class != "OrdinalDiscretizer")
         else:
             spec = _quant_spec(rng)
         _ = name_kind
@@ -508,6 +510,11 @@ def generate_world(rng, tier="quick", force_class=None, min_features=1, max_feat
             params["max_n_mod"] = min(params["max_n_mod"], 3)
         if sut_class != "ContinuousCarver":
             params["sort_by"] = rng.choice(["tschuprowt", "cramerv"])
+    if sut_class != "BaseDiscretizer" and rng.random() < 0.12:
+        # user-chosen sentinels for missing values / rare values
+        params["extra_kwargs"] = rng.choice(
+            [{"str_nan": "MISSING"}, {"str_default": "RARE"}, {"str_nan": "MISSING", "str_default": "RARE"}]
+        )
     if sut_class == "BaseDiscretizer":
         params.update(_hand_built_orders(rng, world))
         params["output_dtype"] = rng.choice(["float", "str"])
@@ -671,8 +678,8 @@ def build_sut(world, listing_perm=None, overrides=None, only=None):
         cat = [f for f in cat if f in only]
         ordi = [f for f in ordi if f in only]
         orders = {k: v for k, v in orders.items() if k in only}
+    extra = dict(params.get("extra_kwargs", {}))
     common = {"copy": params["copy"], "n_jobs": params["n_jobs"]}
-    extra = params.get("extra_kwargs", {})
     if cls in CARVERS:
         kwargs = dict(
             min_freq=params["min_freq"],
@@ -695,6 +702,8 @@ def build_sut(world, listing_perm=None, overrides=None, only=None):
         if "sort_by" in params:
             kwargs["sort_by"] = params["sort_by"]
         return ContinuousCarver(**kwargs)
+    if cls != "BaseDiscretizer":
+        common = dict(common, **extra)
     if cls == "Discretizer":
         return Discretizer(
             quantitative_features=quant,
@@ -765,3 +774,14 @@ def fit_kwargs(world, x_dev, y_dev):
 
 def is_carver(world):
     return world["sut"]["class"] in CARVERS
+
+
+DEFAULT_CLASSES = CARVERS + ("Discretizer", "QualitativeDiscretizer", "CategoricalDiscretizer", "BaseDiscretizer")
+
+
+def expected_sentinels(world):
+    """The sentinels the user asked for (the oracle reads them from the world, not from the object)."""
+    extra = world["sut"]["params"].get("extra_kwargs", {})
+    str_nan = extra.get("str_nan", "__NAN__")
+    str_default = extra.get("str_default", "__OTHER__") if world["sut"]["class"] in DEFAULT_CLASSES else None
+    return str_nan, str_default
